@@ -68,6 +68,9 @@ var c11MoreErrs = []error{
 	lib.ErrInjected, os.ErrDeadlineExceeded, context.DeadlineExceeded, context.Canceled, io.ErrNoProgress, io.ErrShortBuffer,
 	syscall.ECONNRESET, syscall.EINTR, syscall.EAGAIN, net.ErrClosed, os.ErrNotExist, c11Timeout{},
 	&os.PathError{Op: "read", Path: "/dev/fit", Err: syscall.EIO}, fmt.Errorf("wrapped: %w", os.ErrDeadlineExceeded),
+	// what a decompressing or length-limited reader returns when ITS source ends early: the
+	// stream handed to the decoder is cut, whatever the position
+	io.ErrUnexpectedEOF, fmt.Errorf("gzip: %w", io.ErrUnexpectedEOF), io.ErrClosedPipe,
 }
 
 // Errors that the library itself returned earlier (for an empty source, for a source cut inside
